@@ -15,7 +15,7 @@ ARG_TY = {"none": None, "i64": "i64", "cstruct": "Pt", "ref": "&u64", "mutref": 
           "result": "Result<u64, u64>", "into": "impl Into<u64>", "callback": "OpaqueCallback<u64>", "iter": "CIterator<u64>"}
 RET_TY = {"unit": None, "i64": "i64", "cstruct": "Pt", "slice": "&[u8]", "mutslice": "&mut [u8]", "str": "&str",
           "opt": "Option<u64>", "optnpo": "Option<&u64>", "optptr": "Option<*const u8>", "result": "Result<u64, ()>", "resunit": "Result<(), ()>",
-          "refret": "&u64", "mutrefret": "&mut u64", "optstruct": "Option<Pt>",
+          "refret": "&u64", "mutrefret": "&mut u64", "optstruct": "Option<Pt>", "resio": "Result<u64, std::io::Error>",
           "resneg": "Result<u64, NegErr>"}
 
 # callee: compute digest `d` of the received argument, log it (and its address), write through &mut shapes
@@ -63,6 +63,8 @@ def ret_expr(ret, recv):
         "result": "if s2 % 2 == 0 { Ok(s2 as u64) } else { Err(()) }",
         "resunit": "if s2 % 2 == 0 { Ok(()) } else { Err(()) }",
         "resneg": "if s2 % 2 == 0 { Ok(s2 as u64) } else { Err(NegErr { code: -2 - (s2 % 5) as i32 }) }",
+        # an operating-system error with a negative raw code (the shipped IntError impl for std::io::Error)
+        "resio": "if s2 % 2 == 0 { Ok(s2 as u64) } else { Err(std::io::Error::from_raw_os_error(-1 - (s2 % 4000) as i32)) }",
     }[ret]
 
 
@@ -83,6 +85,7 @@ RET_DIGEST = {
     "result": "let rd: Vec<i64> = match r { Ok(v) => vec![0, v as i64], Err(()) => vec![1] };",
     "resunit": "let rd: Vec<i64> = match r { Ok(()) => vec![0], Err(()) => vec![1] };",
     "resneg": "let rd: Vec<i64> = match r { Ok(v) => vec![0, v as i64], Err(e) => vec![1, e.code as i64] };",
+    "resio": "let rd: Vec<i64> = match r { Ok(v) => vec![0, v as i64], Err(e) => vec![1, e.raw_os_error().map(|c| c as i64).unwrap_or(i64::MIN)] };",
 }
 
 # caller: argument set-up for variant v (0/1): declares locals, `sent_d` (digest), `sent_addr` (0 if n/a), the
@@ -400,6 +403,10 @@ impl Report {
         // C01: same results, same state trajectory, called exactly once
         if rd != drd {
             self.fail("c01", def, cont, v, s0, format!("result through the object {:?} differs from the direct call {:?}", rd, drd));
+            if norm == dlg {
+                // the callee did exactly what it does in the direct call: the value was altered on its way back (C02)
+                self.fail("c02", def, cont, v, s0, format!("result altered crossing the boundary: arrived {:?}, the callee returned {:?}", rd, drd));
+            }
         }
         if norm != dlg {
             self.fail("c01", def, cont, v, s0, format!("callee log through the object {:?} differs from the direct call {:?} (wrong method, lost update or double call)", norm, dlg));
